@@ -23,10 +23,8 @@ MUTATIONS = [
          new="        with device:\n            return output\n"),
     # ---- C03
     dict(name="c03-compose-order", file="sigpy/linop.py", props=["C03"],
-         old="        for linop in self.linops[::-1]:\n            output = linop(output)",
-         new="        for linop in (self.linops[::-1] if len(set(map(str, [l.ishape for l in "
-             "self.linops] + [l.oshape for l in self.linops]))) > 1 else self.linops):\n"
-             "            output = linop(output)"),
+         old='        for linop in self.linops[::-1]:\n            output = linop.apply(output)',
+         new='        for linop in (self.linops[::-1] if len(set(map(str, [l.ishape for l in self.linops] + [l.oshape for l in self.linops]))) > 1 else self.linops):\n            output = linop.apply(output)'),
     dict(name="c03-rmul-conj-scalar", file="sigpy/linop.py", props=["C03"],
          old="        if np.isscalar(input):\n            M = Multiply(self.oshape, input)\n"
              "            return Compose([M, self])",
@@ -37,11 +35,8 @@ MUTATIONS = [
          new="        if len(linop1.ishape) != len(linop2.oshape):"),
     # ---- C04
     dict(name="c04-circshift-normal", file="sigpy/linop.py", props=["C04"],
-         old="        return Circshift(self.ishape, [-s for s in self.shift], axes=self.axes)\n\n"
-             "    def _normal_linop(self):\n        return Identity(self.ishape)",
-         new="        return Circshift(self.ishape, [-s for s in self.shift], axes=self.axes)\n\n"
-             "    def _normal_linop(self):\n        return Circshift(self.ishape, self.shift, "
-             "axes=self.axes)"),
+         old='        return Circshift(\n            self.ishape, [-int(s) for s in self.shift], axes=self.axes\n        )\n\n    def _normal_linop(self):\n        return Identity(self.ishape)',
+         new='        return Circshift(\n            self.ishape, [-int(s) for s in self.shift], axes=self.axes\n        )\n\n    def _normal_linop(self):\n        return Circshift(self.ishape, self.shift, axes=self.axes)'),
     dict(name="c04-toeplitz-factor", file="sigpy/fourier.py", props=["C04"],
          old="        psf = fft(psf, axes=fft_axes, norm=None) * (2**ndim)",
          new="        psf = fft(psf, axes=fft_axes, norm=None) * 2"),
@@ -120,14 +115,14 @@ MUTATIONS += [
          old="self.x + ((t_old - 1) / self.t) * (self.x - x_old)",
          new="self.x + (t_old / self.t) * (self.x - x_old)"),
     dict(name="c13-no-extrapolation", file="sigpy/alg.py", props=["C13"],
-         old="            backend.copyto(self.x_ext, self.x + theta * x_diff)",
-         new="            backend.copyto(self.x_ext, self.x + 0 * theta * x_diff)"),
+         old='            x_ext = self.x + theta * x_diff',
+         new='            x_ext = self.x + 0 * theta * x_diff'),
     dict(name="c13-dual-step-tau", file="sigpy/alg.py", props=["C13"],
          old="        backend.copyto(self.u, self.proxfc(self.sigma, self.u))",
          new="        backend.copyto(self.u, self.proxfc(self.tau, self.u))"),
     dict(name="c13-sigma-not-rescaled", file="sigpy/alg.py", props=["C13"],
-         old="            with self.u_device:\n                self.sigma /= theta\n",
-         new="            with self.u_device:\n                self.sigma /= 1\n"),
+         old='                self.sigma = self.sigma / theta',
+         new='                self.sigma = self.sigma / 1'),
     dict(name="c13-fista-t", file="sigpy/alg.py", props=["C13"],
          old="                self.t = (1 + (1 + 4 * t_old**2) ** 0.5) / 2",
          new="                self.t = (1 + (1 + 2 * t_old**2) ** 0.5) / 2"),
@@ -136,8 +131,8 @@ MUTATIONS += [
 MUTATIONS += [
     # ---- C14
     dict(name="c14-cg-drop-lamz", file="sigpy/app.py", props=["C14"],
-         old="                util.axpy(AHy, self.lamda, self.z)",
-         new="                pass"),
+         old="            if self.z is not None:\n                # A.H may return (a view of) y itself: do not accumulate in place.\n                AHy = AHy + self.lamda * self.z\n\n        self.alg = ConjugateGradient(",
+         new="            if self.z is not None:\n                # A.H may return (a view of) y itself: do not accumulate in place.\n                AHy = AHy + 0 * self.z\n\n        self.alg = ConjugateGradient("),
     dict(name="c14-admm-rho-GHG", file="sigpy/app.py", props=["C14"],
          old="                AHA += self.rho * self.G.H * self.G",
          new="                AHA += self.G.H * self.G"),
@@ -163,20 +158,21 @@ MUTATIONS += [
          new="                    mps[max(c * coil_batch_size - (num_coils % coil_batch_size > 0 and c == num_coil_batches - 1), 0) : max(c * coil_batch_size - (num_coils % coil_batch_size > 0 and c == num_coil_batches - 1), 0) + min(coil_batch_size, num_coils - c * coil_batch_size)],\n                    coord=coord,"),
     # ---- C17
     dict(name="c17-phase-ref-coil1", file="sigpy/mri/app.py", props=["C17"],
-         old="            mps *= xp.conj(mps[0] / xp.abs(mps[0]))",
-         new="            mps *= xp.conj(mps[-1] / xp.abs(mps[-1]))"),
+         old='            mps = mps * xp.conj(mps[0] / xp.abs(mps[0]))',
+         new='            mps = mps * xp.conj(mps[-1] / xp.abs(mps[-1]))'),
     dict(name="c17-crop-ge", file="sigpy/mri/app.py", props=["C17"],
-         old="            mps *= max_eig > self.crop",
-         new="            mps *= max_eig >= self.crop"),
+         old='            mps = mps * (max_eig > self.crop)',
+         new='            mps = mps * (max_eig >= self.crop)'),
     # ---- C18
     dict(name="c18-calib-shift", file="sigpy/mri/samp.py", props=["C18"],
-         old="        int(nx / 2 - calib[-1] / 2) : int(nx / 2 + calib[-1] / 2),",
-         new="        int(nx / 2 - calib[-1] / 2) + 1 : int(nx / 2 + calib[-1] / 2) + 1,"),
+         old='        int(nx / 2 - calib[-1] / 2) : int(nx / 2 + calib[-1] / 2),\n    ] = 1',
+         new='        int(nx / 2 - calib[-1] / 2) + 1 : int(nx / 2 + calib[-1] / 2) + 1,\n    ] = 1'),
     dict(name="c18-rng-not-restored", file="sigpy/mri/samp.py", props=["C18"],
          old="    if seed is not None:\n        np.random.set_state(rand_state)",
          new="    if seed is not None and np.sum(mask) % 7:\n        np.random.set_state(rand_state)\n    else:\n        np.random.random()"),
     dict(name="c18-crop-le", file="sigpy/mri/samp.py", props=["C18"],
-         old="            mask *= r < 1", new="            mask *= r <= 1"),
+         old='            keep = r < 1',
+         new='            keep = r <= 1'),
     # ---- C19
     dict(name="c19-abrm-conj-sign", file="sigpy/mri/rf/sim.py", props=["C19"],
          old="            at = av * a - xp.conj(bv) * b\n            bt = bv * a + xp.conj(av) * b\n            a = at\n            b = bt\n\n        if balanced:",
